@@ -110,6 +110,18 @@ CLAIMED = {
          'currently established differentially (oracle), the memory-safety clause by proof; API-level transparency is covered through C10.',
     technique='Coq proof (invariant over decoder loop) over hand model; translator-regenerated constants/align (tie A); differential correspondence + reference-decoder oracle (tie B)',
     design='6/C14'),
+ 'C16': dict(
+    text='Theorems: (1) soundness of the ledger acceptor - a trace of get_table / release_table / milestone events that it accepts satisfies the discipline in declarative form: every buffer handed out '
+         'is released exactly once, never before its get, identifiers are never reused, the trace ends with gr_face_destroy or a failed gr_make_face with nothing outstanding and nothing after it, and '
+         'with gr_face_preloadAll get_table is not called at all (not even for absent tables) once gr_make_face has returned; (2) local contracts of Face::Table, the only place where the library touches '
+         'the callbacks: the constructor owns the buffer or has handed it back on every path (absent, failing CheckTable, plain, lz4 ok, lz4 failing), release gives back exactly the owned buffer once, '
+         'moved-from objects are inert.  Tie B: programs over real Face::Table objects against the extracted life-cycle model (state after every operation); callback logs of random API call sequences '
+         '(all option sets, well-formed and corrupted fonts, every query, any owner-respecting destruction order) through the extracted ledger.  Oracle: buffers are fresh copies freed at release '
+         '(use after release = ASan error); LeakSanitizer is queried after every case.',
+    note='partial: "never dereferenced afterwards" and "holds no allocation" are decided by ASan/LSan on explored sequences; the whole-library claim (every Table user) rests on the ledger check of real logs, '
+         'not on a proof over Face / GlyphCache / Cmap code.',
+    technique='Coq proof (ledger acceptor soundness by multiset accounting over arbitrary traces; Face::Table contracts) + differential correspondence on real Face::Table + ledger acceptance of real callback logs under ASan/LSan',
+    design='6/C16'),
  'C17': dict(
     text='Theorems over an exact-integer model of graphite2::Zones (src/Intervals.cpp: insert with its four overlap cases, remove, exclude, exclude_with_margins, weighted, '
          'test_position): for initialise followed by ANY operation sequence the interval list stays sorted, disjoint, well-formed and inside [_pos,_posm] (and free of empty intervals '
